@@ -318,8 +318,17 @@ func TestVerif_C17_e2eresend(t *testing.T) {
 			}
 		}
 		o.take()
-		resp, err := req.Post(o.base + path + "?id=" + proto + strconv.Itoa(i))
-		seen := o.take()
+		cid := "id=" + proto + strconv.Itoa(i)
+		resp, err := req.Post(o.base + path + "?" + cid)
+		// only this case's requests: a broken request of an EARLIER case (a streamed body that a
+		// redirect refused: its truncated second request ends at the origin with a read error)
+		// may be recorded after that case took its list
+		var seen []c17Seen
+		for _, sn := range o.take() {
+			if sn.Query == cid {
+				seen = append(seen, sn)
+			}
+		}
 		ok := err == nil && resp != nil && resp.StatusCode == 200 && len(seen) >= 2
 		detail := ""
 		streamed := kind == "multipart-chunked" || kind == "multipart-callback"
